@@ -154,6 +154,8 @@ var (
 	rBSClear  = Rule{"ORD-BSCLEAR", rules.OrdBSClear}
 	rTokFin   = Rule{"ORD-TOKFINISH", rules.OrdTokFinish}
 	rAccType  = Rule{"TAB-ACCTYPE", rules.TabAccType}
+	rReslice0 = Rule{"OWN-RESLICE0", rules.OwnReslice0(rules.ScopeWriter)}
+	rEscRune  = Rule{"TAB-ESCRUNE", rules.TabEscRune}
 	rFixedLST = Rule{"OWN-FIXEDLST", rules.OwnFixedLST}
 	rReflSet  = Rule{"TAB-REFLECTSET", rules.TabReflectSet}
 	rBounds   = Rule{"TAB-BOUNDS", rules.TabBounds}
@@ -176,26 +178,28 @@ const tabTech = "constant-table extraction from SSA (enum value-set dataflow ove
 
 var registry = map[string]*Property{
 	"C01": {
-		Decided:    "The finite tables of the writers and the readers are inverse of each other: every single-letter escape the text writer spells is mapped back to the same byte by the text reader and the needs-escaping tests cover delimiter, backslash and control characters (TAB-ESCAPE, writer obligations); typed-null spellings written = names the reader dispatches on = the 13 Ion type names (TAB-NULLKW); identifier-shaped text with a non-symbol meaning is quoted when written as a symbol (TAB-KEYWORD); binary type codes, per-code value types, float sizes and typed-null bytes equal the Ion 1.0 tables (TAB-TYPECODE); every value the writers open is closed on each success path, annotation wrappers included (ORD-VALUE); in Finish the version marker precedes the symbol table, which precedes the buffered values (ORD-LSTFIRST); every length the binary writer declares is computed with the codec, and for the operand, that the payload is appended with (TAB-LENPAY); each binary field uses the codec family Ion 1.0 prescribes on the writing and on the reading side (TAB-CODEC); a symbol token's text is never reinterpreted as a '$n' ID nor replaced by the token's source SID when written (OWN-TEXTAUTH). A flag bit ORed onto a VarUInt/VarInt octet never overlaps the payload (NUM-FLAGOR); a float is classified as zero on the output side only together with its sign bit (NUM-ZEROSIGN); no function that distinguishes negative zero decides a Decimal's sign from its coefficient where the flag may be set (ORD-DECSIGN).",
+		Decided:    "The finite tables of the writers and the readers are inverse of each other: every single-letter escape the text writer spells is mapped back to the same byte by the text reader and the needs-escaping tests cover delimiter, backslash and control characters (TAB-ESCAPE, writer obligations); typed-null spellings written = names the reader dispatches on = the 13 Ion type names (TAB-NULLKW); identifier-shaped text with a non-symbol meaning is quoted when written as a symbol (TAB-KEYWORD); binary type codes, per-code value types, float sizes and typed-null bytes equal the Ion 1.0 tables (TAB-TYPECODE); every value the writers open is closed on each success path, annotation wrappers included (ORD-VALUE); in Finish the version marker precedes the symbol table, which precedes the buffered values (ORD-LSTFIRST); every length the binary writer declares is computed with the codec, and for the operand, that the payload is appended with (TAB-LENPAY); each binary field uses the codec family Ion 1.0 prescribes on the writing and on the reading side (TAB-CODEC); a symbol token's text is never reinterpreted as a '$n' ID nor replaced by the token's source SID when written (OWN-TEXTAUTH). A flag bit ORed onto a VarUInt/VarInt octet never overlaps the payload (NUM-FLAGOR); a float is classified as zero on the output side only together with its sign bit (NUM-ZEROSIGN); no function that distinguishes negative zero decides a Decimal's sign from its coefficient where the flag may be set (ORD-DECSIGN). A slice emptied by reslicing is not stored into a writer field while a value read from the same field is still used (OWN-RESLICE0).",
 		Necessary:  "A byte escaped as \\X that the reader maps elsewhere, a typed null spelled with another type's name, a reserved word written unquoted, a type code decoded as another type, an unclosed 0xE0 wrapper or a table emitted after its values each change or lose a value named in the property's quantifier.",
 		NotDecided: "payload encodings (ints, floats, decimals, timestamps), xLen = len(appendX), float/decimal/timestamp formatting; each codec's own length function (len(appendX(v)) = xLen(v))",
-		Technique:  tabTech + "; CFG/SSA pairing for ORD; " + "codec-family pairing (length function vs append function per operand, by SSA path) and codec tables compared with Ion 1.0" + "; call-graph fixed point and value flow for OWN-TEXTAUTH" + "; interval check of flag/payload bit overlap (NUM-FLAGOR, with field invariants from every store to an unexported field); dominance of float-zero tests by Signbit tests",
+		Technique:  tabTech + "; CFG/SSA pairing for ORD; " + "codec-family pairing (length function vs append function per operand, by SSA path) and codec tables compared with Ion 1.0" + "; call-graph fixed point and value flow for OWN-TEXTAUTH" + "; interval check of flag/payload bit overlap (NUM-FLAGOR, with field invariants from every store to an unexported field); dominance of float-zero tests by Signbit tests" + "; alias check on s[:0] stores",
 		DesignRef:  "DESIGN.md §3.4, §3.5, §4 C01",
 		Rules: []Rule{
 			only(rEscape, 18, whatHas("writer:")), rNullKW, rKeyword, rTypecode, rOrdValue, rOrdLstFirst,
 			rLenPay, rCodec, rTextAuth,
 			rFlagOr, rZeroSign, rDecSign,
+			rReslice0,
 		},
 	},
 	"C02": {
-		Decided:    "The text reader's finite tables equal the Ion 1.0 text tables: every escape with its code point and digit count, \\u and \\U refused inside clobs (TAB-ESCAPE, reader obligations); the 13 null.<type> names (TAB-NULLKW, reader obligations); every token the tokenizer can hand out at the start of a value has an arm in the reader's value dispatch (TAB-TOKEN, value arms); inside {{ }} no comment-skipping whitespace routine is reachable, so base64 text containing '//' or '/*' decodes (OWN-LOBWS); no comparison treats symbol ID 0 ($0) differently from the positive IDs (TAB-SID0); the timestamp parser separates second precision, nanosecond precision (up to nine digits) and rounding, and valid from invalid offsets, at the indices and values the grammar prescribes (TAB-BOUNDS, text timestamp obligations). Every function of the text tokenizer that recognises whitespace by comparing with ' ' and another whitespace character tests space, tab and line feed (TAB-WSSET); every caller of the comment-blind free function isStopChar looks for '/' itself (OWN-STOPCHAR).",
+		Decided:    "The text reader's finite tables equal the Ion 1.0 text tables: every escape with its code point and digit count, \\u and \\U refused inside clobs (TAB-ESCAPE, reader obligations); the 13 null.<type> names (TAB-NULLKW, reader obligations); every token the tokenizer can hand out at the start of a value has an arm in the reader's value dispatch (TAB-TOKEN, value arms); inside {{ }} no comment-skipping whitespace routine is reachable, so base64 text containing '//' or '/*' decodes (OWN-LOBWS); no comparison treats symbol ID 0 ($0) differently from the positive IDs (TAB-SID0); the timestamp parser separates second precision, nanosecond precision (up to nine digits) and rounding, and valid from invalid offsets, at the indices and values the grammar prescribes (TAB-BOUNDS, text timestamp obligations). Every function of the text tokenizer that recognises whitespace by comparing with ' ' and another whitespace character tests space, tab and line feed (TAB-WSSET); every caller of the comment-blind free function isStopChar looks for '/' itself (OWN-STOPCHAR). The code point of an escape in a string or symbol is never narrowed to a byte, and every function passes readEscapedChar the mode of the text kind it reads (TAB-ESCRUNE).",
 		Necessary:  "An escape decoded to another code point, a null.<type> name mapped to another type, or a value-start token without a dispatch arm makes a legal spelling decode to another value or to an error.",
 		NotDecided: "number, string-segmentation, comment/whitespace and timestamp grammar (behaviour of loops over characters); $n handling",
-		Technique:  tabTech + "; who-may-call check for the lob whitespace routines; spelling-insensitive boundary extraction for TAB-BOUNDS" + "; constant-set agreement of whitespace tests; who-may-call for isStopChar",
+		Technique:  tabTech + "; who-may-call check for the lob whitespace routines; spelling-insensitive boundary extraction for TAB-BOUNDS" + "; constant-set agreement of whitespace tests; who-may-call for isStopChar" + "; value-flow check of the escape rune and constant propagation of the escape mode through helper parameters",
 		DesignRef:  "DESIGN.md §3.4, §4 C02",
 		Rules: []Rule{
 			only(rEscape, 18, whatHas("reader:")), only(rNullKW, 13, whatHas("reader:")), only(rToken, 14, whatHas("value arm")), rLobWS, rSid0, only(rBounds, 6, funcHas("ParseTimestamp", "computeTimezoneKind", "isIonYear")),
 			rWSSet, rStopChar,
+			rEscRune,
 		},
 	},
 	"C03": {
@@ -244,14 +248,15 @@ var registry = map[string]*Property{
 		},
 	},
 	"C07": {
-		Decided:    "The Reader error state is absorbing and every effect of a Reader method happens after 'no error yet' was established (ERR-ABSORB-R); an error obtained from the input layer is made sticky before it is returned (ERR-STICKY-R); end of input inside an open binary container is never a nil-error return (ORD-EOFDEPTH); the text reader ends a sequence in the value position only when no annotations are pending (ORD-DANGLE); a negative integer with a zero magnitude is rejected whichever representation the magnitude was decoded into (ORD-NEGZERO); in the reader files no error is discarded (ERR-DROP) and no path from a non-nil error test reaches an exit without consuming the error or returning a definitely non-nil one (ERR-SWAP).",
+		Decided:    "The Reader error state is absorbing and every effect of a Reader method happens after 'no error yet' was established (ERR-ABSORB-R); an error obtained from the input layer is made sticky before it is returned (ERR-STICKY-R); end of input inside an open binary container is never a nil-error return (ORD-EOFDEPTH); the text reader ends a sequence in the value position only when no annotations are pending (ORD-DANGLE); a negative integer with a zero magnitude is rejected whichever representation the magnitude was decoded into (ORD-NEGZERO); in the reader files no error is discarded (ERR-DROP) and no path from a non-nil error test reaches an exit without consuming the error or returning a definitely non-nil one (ERR-SWAP). Clob-reading functions read escapes in clob mode, so \\u and \\U are refused there (TAB-ESCRUNE, mode obligations).",
 		Necessary:  "A Next that continues after an error, an input-layer error that never reaches Err(), a truncated container read as complete (F14, fixed), 'a::' accepted (F15, fixed) or a dropped tokenizer/bitstream error each let malformed input finish with Err()==nil or let Next resume.",
 		NotDecided: "that each grammar violation in the property's catalogue is detected by some check in the tokenizer or bitstream",
-		Technique:  ssaTech + "; phi-edge inspection of the negative-zero flag",
+		Technique:  ssaTech + "; phi-edge inspection of the negative-zero flag" + "; constant propagation of the escape mode through helper parameters",
 		DesignRef:  "DESIGN.md §3.1, §3.5, §4 C07",
 		Rules: []Rule{
 			rAbsorbR, rStickyR, rOrdEOFDepth, rOrdDangle, rNegZero,
 			{"ERR-DROP", rules.ErrDrop(rules.ScopeReader, nil, 150)}, {"ERR-SWAP", rules.ErrSwap(rules.ScopeReader, rules.SwapSuppReader, 150)},
+			only(rEscRune, 3, whatHas("escape mode")),
 		},
 	},
 	"C08": {
@@ -287,14 +292,15 @@ var registry = map[string]*Property{
 		Rules:      []Rule{rLstFields, rOrdLstFirst, rOrdFirstWins, only(rTextAuth, 2, posHas("ion/binarywriter.go")), rImpFirst, rBuild, rWrCache, rIdxPair, rFixedLST, rParamUse},
 	},
 	"C12": {
-		Decided:    "For all 24 error-returning Writer methods on each writer implementation: the sticky error is tested before any effect on the writer (ERR-GUARD-W) and every returned error is the sticky error (ERR-STICKY-W); every value opened is closed on each success path (ORD-VALUE); Finish re-arms the binary writer before every success exit (ORD-REARM); every panicking pop on the writer-side stacks is dominated by a non-emptiness fact (ORD-POPGUARD, writer obligations); nothing in the writer implementation reachable from the Writer methods consults a time-, random- or schedule-dependent source and every map range there has an order-insensitive body (OWN-NONDET, functions outside marshal.go, fields.go and the command); an exit that refuses a call with an unrecorded UsageError (Finish away from the top level) is reached before any effect on the writer (REFUSE-PURE-W); closing a container reaches clear() before every exit that may succeed, so a pending field name or annotation never leaks to a later value (ORD-ENDCLEAR); the binary writer keeps no text-to-ID memory that outlives its symbol table builder (OWN-WRCACHE). The text writer forgets an owed separator only on a path that writes to the output (ORD-SEPSTATE).",
+		Decided:    "For all 24 error-returning Writer methods on each writer implementation: the sticky error is tested before any effect on the writer (ERR-GUARD-W) and every returned error is the sticky error (ERR-STICKY-W); every value opened is closed on each success path (ORD-VALUE); Finish re-arms the binary writer before every success exit (ORD-REARM); every panicking pop on the writer-side stacks is dominated by a non-emptiness fact (ORD-POPGUARD, writer obligations); nothing in the writer implementation reachable from the Writer methods consults a time-, random- or schedule-dependent source and every map range there has an order-insensitive body (OWN-NONDET, functions outside marshal.go, fields.go and the command); an exit that refuses a call with an unrecorded UsageError (Finish away from the top level) is reached before any effect on the writer (REFUSE-PURE-W); closing a container reaches clear() before every exit that may succeed, so a pending field name or annotation never leaks to a later value (ORD-ENDCLEAR); the binary writer keeps no text-to-ID memory that outlives its symbol table builder (OWN-WRCACHE). The text writer forgets an owed separator only on a path that writes to the output (ORD-SEPSTATE). A slice emptied by reslicing is not stored into a writer field while a value read from the same field is still used, so pending annotations set aside during the symbol table's emission are not overwritten (OWN-RESLICE0).",
 		Necessary:  "A method that works after an earlier error or returns an error it does not remember lets a later Finish return nil (F1–F3, fixed); an unclosed value or a Finish that is not re-armed emits an invalid stream on a nil Finish (F4, fixed); an unguarded pop panics on an illegal call sequence; a nondeterminism source makes the same calls yield different bytes.",
 		NotDecided: "validity of the emitted stream beyond pairing (see C04), nil pointer arguments, WriteNullType with an out-of-range Type (finding F23, TAB-INDEX not built)",
-		Technique:  ssaTech + "; forward path search to exits for ORD-ENDCLEAR / OWN-WRCACHE / REFUSE-PURE-W" + "; must-pass-through of an output write around separator-state resets",
+		Technique:  ssaTech + "; forward path search to exits for ORD-ENDCLEAR / OWN-WRCACHE / REFUSE-PURE-W" + "; must-pass-through of an output write around separator-state resets" + "; alias check on s[:0] stores",
 		DesignRef:  "DESIGN.md §3.1, §3.5, §3.6, §4 C12",
 		Rules: []Rule{
 			rGuardW, rStickyW, rOrdValue, rOrdRearm, only(rOrdPopGuard, 2, funcHas("Writer", "writer")), only(rOwnNondet, 40, posLacks("ion/marshal.go", "ion/fields.go", "cmd/")), rRefuseW, rEndClear, rWrCache,
 			rSepState,
+			rReslice0,
 		},
 	},
 	"C13": {
@@ -392,6 +398,8 @@ var devRules = map[string]Rule{
 	"ORD-BSCLEAR":     rBSClear,
 	"ORD-TOKFINISH":   rTokFin,
 	"TAB-ACCTYPE":     rAccType,
+	"OWN-RESLICE0":    rReslice0,
+	"TAB-ESCRUNE":     rEscRune,
 	"NUM-NARROW":      {"NUM-NARROW", rules.NumNarrow(rules.ScopeNum, rules.NarrowResiduals, 0)},
 	"NUM-SHIFT":       {"NUM-SHIFT", rules.NumShift(rules.ScopeNum, rules.ShiftResiduals, 0)},
 	"NUM-EXP32":       {"NUM-EXP32", rules.NumArith32(rules.ScopeNum, nil, 0)},
